@@ -69,6 +69,14 @@ def universe(tier, seed):
         r = rng.random()
         if r < 0.06:
             s = big_value(rng)
+        elif r < 0.12:
+            # a pair of values differing only in the type of one leaf of an item that also occurs (equal under ==)
+            # in another container of the same value: anything remembered per item by equality confuses the two
+            s, twin = twin_values(rng)
+            if gen_obj.canon(twin) not in seen:
+                seen.add(gen_obj.canon(twin))
+                out.append((i, twin, True))
+                i += 1
         else:
             s = gen_obj.gen_spec(rng, rng.choice([1, 2, 3, 3, 4, 5]), width=rng.choice([3, 4, 6, 12]))
         c = gen_obj.canon(s)
@@ -78,6 +86,49 @@ def universe(tier, seed):
         out.append((i, s, False))
         i += 1
     return out
+
+
+EQ_CLASSES = [[["i", "1"], ["f", "1.0"], ["b", 1]], [["i", "0"], ["f", "0.0"], ["b", 0], ["f", "-0.0"]], [["i", "2"], ["f", "2.0"]],
+              [["i", "-7"], ["f", "-7.0"]], [["i", str(2 ** 53)], ["f", str(float(2 ** 53))]]]
+
+
+def twin_values(rng):
+    a, b = rng.sample(rng.choice(EQ_CLASSES), 2)
+
+    def item(leaf):
+        k = rng_item
+        if k == "tuple":
+            return ["T", [leaf, ["s", "x"]]]
+        if k == "frozenset":
+            return ["F", [leaf]]
+        if k == "nested":
+            return ["T", [["T", [["s", "p"], leaf]], ["n"]]]
+        return leaf
+
+    def container(kind, it, filler):
+        if kind == "S":
+            return ["S", [it, filler]]
+        if kind == "F":
+            return ["F", [it, filler]]
+        if kind == "Dk":
+            return ["D", [[it, ["s", "v"]], [filler, ["s", "w"]]]]
+        if kind == "Dv":
+            return ["D", [[["s", "k"], it], [["i", "5"], filler]]]
+        return [kind, [it, filler]]
+
+    rng_item = rng.choice(["tuple", "tuple", "frozenset", "nested", "leaf"])
+    fillers = [["n"], ["s", "y"], ["y", "61"], ["T", [["s", "q"]]]]
+    f1, f2 = rng.choice(fillers), rng.choice(fillers)
+    k1, k2 = rng.choice(["S", "F", "Dk", "S", "Dk", "Dv", "L"]), rng.choice(["S", "F", "Dk", "S", "Dk", "Dv", "T"])
+    holder = rng.choice(["L", "T", "D"])
+
+    def whole(x, y):
+        c1, c2 = container(k1, item(x), f1), container(k2, item(y), f2)
+        if holder == "D":
+            return ["D", [[["s", "p"], c1], [["s", "q"], c2]]]
+        return [holder, [c1, c2]]
+
+    return whole(a, b), whole(a, a)
 
 
 def big_value(rng):
